@@ -43,6 +43,12 @@ type C05Scn struct {
 	// the input allows it); with int64 values the battery also reads through
 	// SlimIndex.Get / RangeGet of that same object.
 	IndexHome bool `json:"instance_lives_in_slimindex,omitempty"`
+	// Interlude: between the steps of the history something unrelated happens
+	// in the process - a small trie with the SIBLING of this lifecycle's encoder
+	// (same Go type, other byte order) or another option set is built,
+	// marshalled, loaded into an instance of its own and queried. The source
+	// tries nobody touches must keep answering the same.
+	Interlude bool `json:"interlude,omitempty"`
 }
 
 func genC05(r *Rng, tier string) *C05Scn {
@@ -184,6 +190,7 @@ func genC05(r *Rng, tier string) *C05Scn {
 		c.History = append(c.History, C05Step{Op: r.PickS("unmarshal", "protounmarshal"), Src: r.Intn(n)})
 	}
 	c.Twin = r.Chance(0.1)
+	c.Interlude = r.Chance(0.3)
 	c.IndexHome = r.Chance(0.3) || (first.Enc == "i64" && r.Chance(0.5))
 	if c.IndexHome && first.Enc == "i64" && c.Start != "zero" && r.Chance(0.6) {
 		// the instance is built by index.NewSlimIndex (default options, offsets)
@@ -339,6 +346,7 @@ func genC05Matrix(r *Rng) *C05Scn {
 		c.History = append(c.History, C05Step{Op: r.PickS("unmarshal", "unmarshal", "protounmarshal"), Src: p[1]})
 	}
 	c.Matrix = true
+	c.Interlude = true
 	return c
 }
 
@@ -421,7 +429,7 @@ type c05Probe struct {
 	shape                                              []string
 	failedLoads, legacyLoads, poisoned                 int64
 	legacyChecked, legacyOverContent, legacyRoundTrips int64
-	indexHomed, indexBuilt                             int64
+	indexHomed, indexBuilt, interludes                 int64
 	inconclusive                                       string
 	diskChunks                                         int64
 }
@@ -656,9 +664,45 @@ func (c *C05Scn) lifecycle(y func(), pr *c05Probe) (outs []string, viol *Violati
 	}
 	yield()
 
+	firstWant := map[int]string{}
+	interlude := func(k int) {
+		if !c.Interlude || y != nil {
+			return
+		}
+		ienc := enc
+		if sib := siblingEnc(enc); sib != "" {
+			ienc = sib
+		}
+		sp := TrieSpec{Enc: ienc, Opt: [4]int8{int8(k % 2), int8(k / 2 % 2), -1, int8(k / 4 % 2)}}
+		for i := 0; i < 5; i++ {
+			sp.Keys = append(sp.Keys, []byte(fmt.Sprintf("interlude%02d", i*3+k%3)))
+			sp.ValIDs = append(sp.ValIDs, int64(i+k))
+		}
+		capCall(5_000_000, func() {
+			defer func() { recover() }()
+			t, err := sp.build()
+			if err != nil {
+				return
+			}
+			b, err := t.Marshal()
+			if err != nil {
+				return
+			}
+			o := fresh(ienc)
+			if o.Unmarshal(b) == nil {
+				o.Get("interlude03")
+				o.Search("interlude04")
+			}
+		})
+		pr.interludes++
+	}
+	interlude(0)
 	for hi, h := range c.History {
 		if viol != nil {
 			break
+		}
+		if (hi+len(c.History))%3 == 0 {
+			interlude(hi + 1)
 		}
 		step := fmt.Sprintf("history %s step %d (%s)", c.historyString(), hi, h.Op)
 		switch h.Op {
@@ -778,6 +822,13 @@ func (c *C05Scn) lifecycle(y func(), pr *c05Probe) (outs []string, viol *Violati
 			wantSteps, okRef := refCall(func() { want = battery(src[i], c.Queries[i], sp.Enc, sp.ValIDs != nil, sp.complete(), y) })
 			if !okRef {
 				return outs, nil
+			}
+			if w0, seen := firstWant[i]; !seen {
+				firstWant[i] = want
+			} else if w0 != want {
+				e, g := firstDiffLine(w0, want)
+				fail("source-answers-changed", "source-trie", fmt.Sprintf("%s: the source trie of input %d (%s), which only this comparison reads, answers differently from an earlier comparison in the same lifecycle: what other instances did in between (loads, resets, builds) changed it", step, i, sp.summary()), e, g)
+				break
 			}
 			capCall(loadCap(wantSteps), func() { got = battery(inst, c.Queries[i], sp.Enc, sp.ValIDs != nil, sp.complete(), y) })
 			if want != got {
@@ -991,6 +1042,7 @@ func executeC05(scn *Scenario) *RunResult {
 	res.Counters["fault.large_regular_build_between_two_builds"] += pr.poisoned
 	res.Counters["probe.checked_loads_over_other_content"] += pr.loadsOverContent
 	res.Counters["builds"] += pr.builds
+	res.Counters["fault.unrelated_build_and_load_between_steps"] += pr.interludes
 	res.Counters["probe.instance_lives_in_slimindex"] += pr.indexHomed
 	res.Counters["probe.instance_built_by_NewSlimIndex"] += pr.indexBuilt
 	res.Counters["disk.chunks_written"] += pr.diskChunks
